@@ -30,6 +30,8 @@ struct Q {
     params: Map<String, Value>,
     /// row order is part of the answer
     ordered: bool,
+    /// top-level members of the answer that name the read coordinate itself (excluded)
+    drop_keys: &'static [&'static str],
 }
 
 impl Q {
@@ -51,6 +53,9 @@ impl Q {
 /// and other instance data replaced, e.g. `c_concept_id_ID_state_active`.
 fn shape_name(qu: &Q) -> String {
     let w = qu.head.split_once("WHERE").map(|x| x.1).unwrap_or(&qu.head);
+    if !qu.head.contains("WHERE") {
+        return qu.head.replace(' ', "_");
+    }
     let proj = if qu.head.contains("COUNT(") || qu.head.contains("MAX(") || qu.head.contains("SUM(") { "agg_" } else { "" };
     let mut text = format!("{w} {}", qu.tail.replace(PIN_TIME, "PIN"));
     for st in ["active", "archived", "tombstoned", "merged"] {
@@ -83,13 +88,17 @@ fn shape_name(qu: &Q) -> String {
 }
 
 fn q(family: &'static str, head: impl Into<String>) -> Q {
-    Q { family, head: head.into(), tail: String::new(), params: Map::new(), ordered: false }
+    Q { family, head: head.into(), tail: String::new(), params: Map::new(), ordered: false, drop_keys: &[] }
 }
 
 impl Q {
     fn tail(mut self, t: impl Into<String>) -> Q {
         self.tail = t.into();
         self.ordered = self.tail.contains("ORDER BY");
+        self
+    }
+    fn drop(mut self, keys: &'static [&'static str]) -> Q {
+        self.drop_keys = keys;
         self
     }
     fn p(mut self, k: &str, v: &str) -> Q {
@@ -164,6 +173,10 @@ fn battery(w: &World, all: &World, rng: &mut Rng) -> Vec<Q> {
             .tail("FOR TIME \"2027-01-01T00:00:00Z\""),
         q("belief", "FIND(?p.id, ?b.status) WHERE { ?p PROPOSITION (?s, ?pr, ?o) ?b BELIEF (?p) }")
             .tail(format!("{} WITH EPISTEMIC {{purpose: \"answer_user\", risk: \"low\", include_hypothetical: true, explanation: \"ledger\"}}", for_pin())),
+        // META commands that take a coordinate
+        q("meta_as_of", "DESCRIBE SCHEMA ENVIRONMENT").drop(&["snapshot_seq"]),
+        q("meta_as_of", "SNAPSHOT"),
+        q("meta_as_of", "DESCRIBE SNAPSHOT"),
         // FOR TIME on raw assertion rows
         q("for_time", "FIND(?a.id) WHERE { ?a ASSERTION {} }").tail("FOR TIME \"2027-01-01T00:00:00Z\""),
         q("for_time", "FIND(?a.id) WHERE { ?a ASSERTION {} }").tail("FOR TIME \"2032-01-01T00:00:00Z\""),
@@ -236,7 +249,17 @@ async fn ask(nexus: &CognitiveNexus, qu: &Q, as_of: &str) -> Result<Result<Value
     if let Some(p) = o.parse_error {
         return Err(format!("battery query does not parse: {p}: {}", cmd.text));
     }
-    Ok(if o.succeeded { Ok(o.result) } else { Err(o.error_code) })
+    Ok(if o.succeeded {
+        let mut r = o.result;
+        if let Some(m) = r.as_object_mut() {
+            for k in qu.drop_keys {
+                m.remove(*k);
+            }
+        }
+        Ok(r)
+    } else {
+        Err(o.error_code)
+    })
 }
 
 /// Numbers are compared to 12 significant digits: an aggregate over floats depends on the order
@@ -502,7 +525,7 @@ async fn hist_case_async(case: u64, rng: &mut Rng, st: &mut Stats, n_commits: us
                 // a refusal that leaves something behind is C17's finding; it would make this
                 // history something other than a sequence of whole commits
                 if masked(&scan(&nexus).await?) != masked(&sc) {
-                    st.count("history_abandoned_refused_statement_changed_state(C17)");
+                    st.count(&format!("history_abandoned_refused_statement_changed_state(C17):{}", out.error_code));
                     return Ok(());
                 }
                 continue;
@@ -645,6 +668,7 @@ fn main() {
          when at least half of the planned commits landed and >= 6 mutation kinds occurred \
          (distinct by statement texts)",
     );
+    run.assume("DESCRIBE SCHEMA ENVIRONMENT AS OF adds the member snapshot_seq (the coordinate it was asked for); it is dropped before comparing. SNAPSHOT / DESCRIBE SNAPSHOT are compared whole (the live answer at s names s itself)");
     run.assume("an answer is the operation's result payload; the response envelope (context.schema_environment_version, space_id, receipt, next_cursor) names the read coordinate/environment and is excluded; nothing inside a payload is excluded");
     run.assume("row order is compared only for queries with ORDER BY (their sort keys are unique per row); otherwise, and for id lists inside a BELIEF ledger, order-only differences are counted, not asserted");
     run.assume("BELIEF / BELIEF SLOT / FOR TIME queries pin world time with FOR TIME so that `now` never enters an answer");
@@ -661,7 +685,7 @@ fn main() {
     run.floor("coordinates_replayed_at_the_end", 120);
     run.floor("oracle_payload_immutable", 500);
     run.floor("payload_checked_over_several_versions", 50);
-    for f in ["element", "tuple", "structural", "path", "not_optional_union", "filter", "aggregate", "order_limit", "belief", "belief_slot", "for_time"] {
+    for f in ["element", "tuple", "structural", "path", "not_optional_union", "filter", "aggregate", "order_limit", "belief", "belief_slot", "for_time", "meta_as_of"] {
         run.floor(&format!("replayed_family:{f}"), 200);
     }
     for k in ["create_concept", "create_proposition", "create_assertion", "update_concept", "update_proposition", "archive", "tombstone", "retract", "supersede", "merge",
